@@ -18,6 +18,7 @@
 #include "bitserializer/serialization_detail/archive_base.h"
 #include <cstring>
 #include <limits>
+#include <vector>
 #include <type_traits>
 
 using namespace vh;
@@ -132,6 +133,15 @@ PaddedText<Ch> unitsToStr(const std::string& tok) {
 	return r;
 }
 
+// The same text once more in a heap block of EXACTLY its size (nothing readable behind it): a parser that looks past the end of
+// its view is an AddressSanitizer report here (the padded run above turns the same slip into a different answer)
+template <class T, class Ch>
+void probeExactSize(const PaddedText<Ch>& p) {
+	const std::vector<Ch> exact(p.data(), p.data() + p.size());
+	try { (void)C::To<T>(std::basic_string_view<Ch>(exact.data(), exact.size())); }
+	catch (const std::exception&) {}
+}
+
 // from_chars has no overloads for char16_t/char32_t/wchar_t: Convert::To<T>(string) does not compile for them
 template <class T>
 constexpr bool parsable_v = !(std::is_same_v<T, char16_t> || std::is_same_v<T, char32_t> || std::is_same_v<T, wchar_t>);
@@ -171,6 +181,7 @@ Register rParse("num.parse", [](const Tokens& t) -> std::string {
 			using Ch = typename decltype(c)::type;
 			if constexpr (parsable_v<T>) {
 				const auto str = unitsToStr<Ch>(t[3]);
+				probeExactSize<T>(str);
 				const T r = C::To<T>(std::basic_string_view<Ch>(str.data(), str.size()));
 				return "ok " + showVal(r);
 			}
@@ -184,6 +195,7 @@ Register rBool("num.bool", [](const Tokens& t) -> std::string {
 	return withWidth(t[1], [&](auto c) -> std::string {
 		using Ch = typename decltype(c)::type;
 		const auto str = unitsToStr<Ch>(t[2]);
+		probeExactSize<bool>(str);
 		const bool r = C::To<bool>(std::basic_string_view<Ch>(str.data(), str.size()));
 		return "ok " + showVal(r);
 	});
